@@ -172,7 +172,7 @@ Definition admm_none (solve : list (list F) -> list (list F) -> list (list F))
     let rho := fdiv Op (mtrace UtU) (nat2F Op r) in
     let x_split := solve (mtranspose r (mmap2 (fadd Op) UtU (mmap (fmul Op rho) (meye r))))
                          (mtranspose r (mmap2 (fadd Op) UtM (mmap (fmul Op rho) (mmap2 (fadd Op) x dual)))) in
-    (mtranspose r (solve (mtranspose r UtU) (mtranspose r UtM)), Some x_split, dual)
+    (mtranspose m (solve (mtranspose r UtU) (mtranspose r UtM)), Some x_split, dual)
   end.
 
 (* ====================================================================================== *)
